@@ -118,7 +118,7 @@ def run(ctx: Ctx) -> None:
                 ctx.sample({"adds": [(e["a"], e["d"]["name"]) for e in hist]})
             sig = {"last": hist[-1]["a"], "def": hist[-1]["d"]["name"]}
             try:
-                e = Extension("verif.ext", ext.Version(1, 2, 3), runtime_reqs={"logic", "prelude"})
+                e = Extension("verif.ext", ext.Version.parse(ln["ext"]["version"]), runtime_reqs={"logic", "prelude"})
                 for ev in hist:
                     if ev["a"] == "AddTypeDef":
                         e.add_type_def(build_typedef(ev["d"]))
